@@ -59,6 +59,8 @@ def _uvl_value_ok(v):
     if isinstance(v, float):
         return 'e' not in repr(v) and 'inf' not in repr(v) and 'nan' not in repr(v)
     if isinstance(v, list):
+        if len(v) == 1 and isinstance(v[0], int) and not isinstance(v[0], bool) and v[0] >= 0:
+            return False        # `[3]` is lexed as a cardinality: a vector of one natural number has no UVL notation
         return all(x is not None and _uvl_value_ok(x) for x in v)
     if isinstance(v, dict):
         return all(isinstance(k, str) and '"' not in k and '.' not in k and _uvl_value_ok(x) for k, x in v.items())
@@ -127,6 +129,9 @@ def cases(tier, seed):
     for m in families.models():
         if in_fragment(m):
             yield ('S', m)
+    for m in rt.fully_decorated(FMT.fields):
+        if in_fragment(m):
+            yield ('D', m)
     for m in rt.align_models(tier):
         yield ('A', m)
     for m in rt.collision_models():
